@@ -344,7 +344,7 @@ func c13Document(c *eng.Ctx) {
 			c.Check(okk, "R-C13-2", f, in.Pos(), eng.CallStr(&call.Call), "the cache receives json.Marshal of the live map Store.active.m itself, in one Write (one complete document with every known secret)", detail)
 			// the cache is the Store's own
 			fr, _, isF := eng.LoadedField(call.Call.Value)
-			c.Check(isF && fr.Is(setecPkg, "Store", "cache"), "R-C13-2", f, in.Pos(), "cache written by "+eng.FName(f), "the Store's configured cache", "")
+			c.Check(isF && fr.Is(setecPkg, "Store", storeField("cache")), "R-C13-2", f, in.Pos(), "cache written by "+eng.FName(f), "the Store's configured cache", "")
 			// written while the lock that protected the encoding is still held
 			l := moduleLocks(c)
 			hs := l.HeldBefore(in)
@@ -732,7 +732,9 @@ func c13Validity(c *eng.Ctx) {
 	type need struct {
 		name string
 		is   func(cond eng.Cond) bool
+		not  func(cond eng.Cond) bool // the opposite is established
 	}
+	isVal := func(v ssa.Value) bool { return eng.Origin(v) == loop.Val || eng.OriginX(v) == loop.Val }
 	needs := []need{
 		{"key == \"\"", func(cond eng.Cond) bool {
 			op, x, y, ok := cond.Cmp()
@@ -741,10 +743,20 @@ func c13Validity(c *eng.Ctx) {
 			}
 			s, isC := eng.ConstString(y)
 			return isC && s == "" && eng.Origin(x) == loop.Key
+		}, func(cond eng.Cond) bool {
+			op, x, y, ok := cond.Cmp()
+			if !ok || op != token.NEQ {
+				return false
+			}
+			s, isC := eng.ConstString(y)
+			return isC && s == "" && (eng.Origin(x) == loop.Key || eng.OriginX(x) == loop.Key)
 		}},
 		{"entry == nil", func(cond eng.Cond) bool {
 			v, isNil, ok := cond.NilCheck()
 			return ok && isNil && eng.Origin(v) == loop.Val
+		}, func(cond eng.Cond) bool {
+			v, isNil, ok := cond.NilCheck()
+			return ok && !isNil && isVal(v)
 		}},
 		{"entry.Secret == nil", func(cond eng.Cond) bool {
 			v, isNil, ok := cond.NilCheck()
@@ -753,6 +765,13 @@ func c13Validity(c *eng.Ctx) {
 			}
 			fr, base, isF := eng.LoadedField(v)
 			return isF && fr.Is(setecPkg, "cachedSecret", "Secret") && eng.Origin(base) == loop.Val
+		}, func(cond eng.Cond) bool {
+			v, isNil, ok := cond.NilCheck()
+			if !ok || isNil {
+				return false
+			}
+			fr, base, isF := eng.LoadedField(v)
+			return isF && fr.Is(setecPkg, "cachedSecret", "Secret") && isVal(base)
 		}},
 	}
 	for _, nd := range needs {
@@ -795,6 +814,42 @@ func c13Validity(c *eng.Ctx) {
 				}
 			}
 		})
+		if !(found && okk) && nd.not != nil {
+			// the dual form: an entry is passed (next iteration, or a non-false
+			// answer from inside the loop) only where the opposite is known --
+			// also through a boolean helper of the entry whose answer was tested
+			passes, all := 0, true
+			judgeC := func(conds []eng.Cond) {
+				passes++
+				has := false
+				for _, cond := range conds {
+					if nd.not(cond) {
+						has = true
+					}
+				}
+				if !has {
+					all = false
+				}
+			}
+			judge := func(at ssa.Instruction) { judgeC(eng.FactsX(at)) }
+			for _, pr := range loop.Header.Preds {
+				if loop.Body.Dominates(pr) {
+					judgeC(eng.EdgeFactsX(pr, loop.Header))
+				}
+			}
+			for _, r := range eng.Returns(f) {
+				if !loop.Body.Dominates(r.Block()) {
+					continue
+				}
+				if k, isC := eng.Origin(eng.RetVals(r)[0]).(*ssa.Const); isC && k.Value != nil && k.Value.String() == "false" {
+					continue
+				}
+				judge(r)
+			}
+			if passes > 0 && all {
+				found, okk = true, true
+			}
+		}
 		c.Check(found && okk, "R-C13-6", f, f.Pos(), "validity gate rejects "+nd.name, "for every entry, "+nd.name+" leads to 'return false' (later code dereferences this level without a check)", func() string {
 			if !found {
 				return "no such test in the loop"
@@ -839,7 +894,7 @@ func flushAlwaysWrites(c *eng.Ctx, rule string, f *ssa.Function, call *ssa.Call)
 		if !isN {
 			return true
 		}
-		if fr2, _, isF2 := eng.LoadedField(v); isF2 && fr2.Is(setecPkg, "Store", "cache") {
+		if fr2, _, isF2 := eng.LoadedField(v); isF2 && fr2.Is(setecPkg, "Store", storeField("cache")) {
 			return !isNil
 		}
 		return true
